@@ -1531,17 +1531,52 @@ func runHandoff(c *Ctx) error {
 	return diffBatch(c, "stream", cases, nil)
 }
 
+// tryExport calls ExportCryptoState on `who` and applies the part of the C15 property oracle that needs
+// no model: "export is refused whenever the stream ... holds any partially sent or partially consumed
+// message" — judged from what the harness itself did to the endpoint (it is between StartMessageRead and
+// EndMessageRead; it handed bytes to WriteMessage that are not on the wire yet).
+func tryExport(c *Ctx, w *sworld, who string) ([]byte, error) {
+	e := w.ep(who)
+	why := ""
+	switch {
+	case e.inRead:
+		why = "inbound-message-being-read"
+	case e.bufferedOut > 0:
+		why = "outbound-bytes-buffered"
+	}
+	blob, err := w.export(who)
+	if err == nil && why != "" {
+		c.Violate(Violation{Property: "C15", Key: "C15:export-accepted-mid-message:" + why, What: "ExportCryptoState returned a blob although the stream holds a partially sent or partially consumed message (" + why + ")",
+			Ops: append([]string{}, w.ops...), Expected: "refused", Observed: fmt.Sprintf("a %d-byte blob", len(blob))})
+	}
+	return blob, err
+}
+
+var handoffSeq int
+
 func handoffHistory(c *Ctx, idx int) Case {
-	w := newWorld()
+	w := newWorldAddr()
 	if c.Rng.Intn(4) != 0 {
 		prelude(c, w, 3)
 	}
 	if c.Rng.Intn(12) == 0 {
 		// export before any key
-		_, _ = w.export("A")
+		_, _ = tryExport(c, w, "A")
 	}
 	w.key("A", 21)
 	w.key("B", 21)
+	// the session's identity as the security layer would record it after the handshake
+	for _, n := range []string{"A", "B"} {
+		switch c.Rng.Intn(4) {
+		case 0:
+			w.setauth(n, true)
+		case 1:
+			w.setauth(n, true)
+			w.setpeer(n, pick(c, []string{"<203.0.113.9:9618?sock=collector>", "<[2001:db8::7]:9618>", "<192.0.2.7:9618>"}))
+		case 2:
+			w.setpeer(n, pick(c, []string{"<203.0.113.9:9618?sock=collector>", ""}))
+		}
+	}
 	steps := 2 + c.Rng.Intn(10)
 	traffic := 0
 	tried := false
@@ -1552,14 +1587,14 @@ func handoffHistory(c *Ctx, idx int) Case {
 			from = "B"
 		}
 		to := w.peer(from).name
-		switch c.Rng.Intn(7) {
+		switch c.Rng.Intn(10) {
 		case 0: // leave a partial outbound message, try export, then finish it
 			w.start(from)
 			_ = w.write(from, randBytes(c, 1+c.Rng.Intn(30)))
-			_, _ = w.export(from)
+			_, _ = tryExport(c, w, from)
 			tried = tried || traffic > 0
 			_ = w.end(from)
-			_, _ = w.export(from) // sendEOM pending
+			_, _ = tryExport(c, w, from) // sendEOM pending
 			w.start(from)
 			_, _ = w.recvc(to)
 			traffic++
@@ -1568,7 +1603,7 @@ func handoffHistory(c *Ctx, idx int) Case {
 			_ = w.send(from, 1, d)
 			if w.startread(to) == nil {
 				_, _ = w.read(to, 1)
-				_, _ = w.export(to)
+				_, _ = tryExport(c, w, to)
 				tried = true
 				_, _ = w.read(to, len(d))
 				_ = w.endread(to)
@@ -1582,6 +1617,54 @@ func handoffHistory(c *Ctx, idx int) Case {
 					Ops: append([]string{}, w.ops...), Expected: "refused", Observed: fmt.Sprintf("a %d-byte blob", len(blob))})
 			}
 			w.crypto(from, true)
+		case 3: // a message "in progress" of which NOTHING has been consumed yet (bytesRead = 0): possibly an
+			// empty one, possibly multi-frame; export at every point of the incremental read
+			var d []byte
+			if c.Rng.Intn(3) != 0 {
+				d = randBytes(c, 1+c.Rng.Intn(30))
+			}
+			if c.Rng.Intn(2) == 0 && len(d) > 1 {
+				_ = w.send(from, 0, d[:len(d)/2])
+				_ = w.send(from, 1, d[len(d)/2:])
+			} else {
+				_ = w.send(from, 1, d)
+			}
+			if w.startread(to) == nil {
+				_, _ = tryExport(c, w, to) // inMessage, bytesRead = 0
+				tried = true
+				if len(d) > 0 {
+					_, _ = w.read(to, len(d))
+					_, _ = tryExport(c, w, to) // everything consumed, EndMessageRead not called yet
+				}
+				_, _ = w.read(to, 1) // end of message
+				_ = w.endread(to)
+			}
+			traffic++
+		case 4: // unread inbound bytes are waiting on the connection (a whole message, or part of one) while the
+			// stream itself holds nothing: export is legitimate, and whoever continues the session reads them
+			d := randBytes(c, 1+c.Rng.Intn(30))
+			_ = w.send(from, 1, d)
+			w.deliver(to)
+			blob, err := tryExport(c, w, to)
+			tried = tried || traffic > 0
+			if err == nil && c.Rng.Intn(2) == 0 {
+				handoffSeq++
+				if w.importBlobAround(to, blob, fmt.Sprintf("@handoff-%d", handoffSeq)) == nil {
+					handoffs++
+				}
+			}
+			got, rerr := w.recvc(to)
+			if err == nil && (rerr != nil || !bytes.Equal(got, d)) {
+				c.Violate(Violation{Property: "C15", Key: "C15:unread-inbound-lost", What: "a message that was waiting unread on the connection when the crypto state was exported was not delivered afterwards",
+					Ops: append([]string{}, w.ops...), Expected: orc.ShowBytes(d), Observed: fmt.Sprint(rerr, " ", orc.ShowBytes(got))})
+			}
+			traffic++
+		case 5: // identity changes mid-session (re-authentication, address rewritten by the application)
+			if c.Rng.Intn(2) == 0 {
+				w.setauth(from, c.Rng.Intn(2) == 0)
+			} else {
+				w.setpeer(from, pick(c, []string{"<203.0.113.9:9618?sock=collector>", "<192.0.2.99:1>", ""}))
+			}
 		default:
 			_ = w.send(from, 1, randBytes(c, c.Rng.Intn(40)))
 			_, _ = w.recvc(to)
@@ -1595,11 +1678,31 @@ func handoffHistory(c *Ctx, idx int) Case {
 		if w.dead {
 			break
 		}
-		blob, err := w.export(who)
+		auth0, peer0 := w.ident(who)
+		blob, err := tryExport(c, w, who)
 		tried = tried || traffic > 0
 		if err == nil && c.Rng.Intn(3) != 0 {
-			if w.importBlob(who, blob) == nil {
+			handoffSeq++
+			remote := fmt.Sprintf("@handoff-%d", handoffSeq)
+			if w.importBlobAround(who, blob, remote) == nil {
 				handoffs++
+				// ---- property oracle C15: the imported stream continues THE SAME session: it reports the
+				// exporter's authentication status and the exporter's peer (not whatever the connection it was
+				// rebuilt around calls its remote end). A session that never knew its peer takes the connection's. ----
+				auth1, peer1 := w.ident(who)
+				if auth1 != auth0 {
+					c.Violate(Violation{Property: "C15", Key: "C15:identity-not-restored:authenticated", What: "the imported stream does not report the authentication status the exporting stream had",
+						Ops: append([]string{}, w.ops...), Expected: fmt.Sprint(auth0), Observed: fmt.Sprint(auth1)})
+				}
+				wantPeer := peer0
+				if peer0 == "" {
+					wantPeer = "<" + remote + ">"
+				}
+				if peer1 != wantPeer {
+					c.Violate(Violation{Property: "C15", Key: "C15:identity-not-restored:peer-address", What: "the imported stream does not report the peer address of the session that was handed over",
+						Ops: append([]string{}, w.ops...), Expected: wantPeer, Observed: peer1})
+				}
+				c.Count("handoff-ident:auth=" + b01(auth0) + ":peer-known=" + b01(peer0 != ""))
 			}
 		}
 	}
@@ -1670,5 +1773,21 @@ func handoffBlobMutations(c *Ctx) []Case {
 		try(fmt.Sprintf("corrupt %d", i), m, i < 6) // magic and version bytes must be rejected
 	}
 	try("extend 3", append(append([]byte{}, blob...), 1, 2, 3), false)
+	// every other version, named: older (0), newer (2), far (0x0100, 0x0101, 0xffff) — "wrong-version blobs"
+	for _, v := range []uint16{0, 2, 3, 0x0100, 0x0101, 0x7fff, 0x8001, 0xffff} {
+		m := append([]byte{}, blob...)
+		binary.BigEndian.PutUint16(m[4:6], v)
+		try(fmt.Sprintf("version %d", v), m, true)
+	}
+	// mis-tagged: magic in another case, rotated, reversed, cut short, and the whole blob shifted by one
+	// byte either way (a leading pad byte; the first byte lost)
+	for _, mg := range []string{"cdrx", "CDRx", "cDRX", "Cdrx", "DRXC", "XCDR", "XRDC", "CDR\x00", "CDRY", "\x00CDR", "CDR ", "    "} {
+		m := append([]byte{}, blob...)
+		copy(m[:4], mg)
+		try("magic "+hexOrDash([]byte(mg)), m, true)
+	}
+	try("shift +1", append([]byte{0}, blob...), true)
+	try("shift +1C", append([]byte{'C'}, blob...), true)
+	try("shift -1", append([]byte{}, blob[1:]...), true)
 	return cases
 }
